@@ -669,11 +669,21 @@ func (ld *loader) resolveDependencies(ctx context.Context, rootPkgPaths []string
 				return nil, nil, err
 			}
 			// All packages could be loaded OK so there are no new
-			// dependencies to be resolved and nothing to do.
+			// dependencies to be resolved.
 			// Specifically, if there are no packages in error, then
 			// resolveMissingImports will never return any entries
 			// in modAddedBy and the default major versions won't
 			// change.
+			//
+			// The roots must still be consistent with the requirements
+			// of the modules that the packages were loaded from.
+			consistentRs, err := ld.updateRoots(ctx, rs, pkgs, nil)
+			if err != nil {
+				return nil, nil, fmt.Errorf("cannot tidy requirements: %v", err)
+			}
+			if !equalRequirements(rs, consistentRs) {
+				return nil, nil, &ErrModuleNotTidy{}
+			}
 			return rs, pkgs, nil
 		}
 
@@ -685,8 +695,20 @@ func (ld *loader) resolveDependencies(ctx context.Context, rootPkgPaths []string
 			rs = rs.WithDefaultMajorVersions(defaultMajorVersions)
 		}
 		if len(modAddedBy) == 0 {
-			// The roots are stable, and we've resolved all of the missing packages
-			// that we can.
+			// We've resolved all of the missing packages that we can.
+			// Make sure that the roots are consistent with the requirements
+			// of the modules that the packages were loaded from: a root
+			// must not be listed below the version that another root requires.
+			// If that changes any root, the packages need to be reloaded
+			// from the newly selected versions.
+			consistentRs, err := ld.updateRoots(ctx, rs, pkgs, nil)
+			if err != nil {
+				return nil, nil, fmt.Errorf("cannot tidy requirements: %v", err)
+			}
+			if !slices.Equal(consistentRs.RootModules(), rs.RootModules()) {
+				rs = consistentRs
+				continue
+			}
 			logf("dependencies are stable at %q", rs.RootModules())
 			return rs, pkgs, nil
 		}
